@@ -606,6 +606,7 @@ Bad(c, G, o) ==
     Check(<<"C14", "sync">>, C14_sync(c, G, o)),
     Check(<<"C11", "reimport">>, Rel("reimport", o)),
     Check(<<"C17", "rename">>, Rel("rename", o)),
+    Check(<<"C17", "copy">>, Rel("copy", o)),
     Check(<<"C18", "fork">>, Rel("fork", o)),
     Check(<<"C18", "undisturbed">>, Rel("undisturbed", o)),
     Check(<<"C13", "frozen">>, C13_frozen(c, G, o)),
